@@ -223,8 +223,34 @@ func (d *daemon) waitForOutput(dur time.Duration, pred func(string) bool) bool {
 
 // saturate writes audit lines without pause until the pipe breaks or stop is
 // closed. The lines are valid records without a session (cheap, never emitted).
-func saturate(w *os.File, stop <-chan struct{}, wg *sync.WaitGroup) {
+func saturate(w *os.File, stop <-chan struct{}, wg *sync.WaitGroup) { saturateInj(w, stop, wg, nil, nil) }
+
+// satWriter lets the scenario add whole lines to the stream of the saturating
+// writer: it alone writes to the descriptor, so injected lines land between its
+// blocks (a second writer on the pipe would be interleaved inside a block, which
+// is larger than PIPE_BUF; a second user of the same *os.File starves on its write lock).
+type satWriter struct {
+	inj  chan []byte
+	done chan struct{}
+}
+
+func (s *satWriter) Write(b []byte) (int, error) {
+	c := append([]byte(nil), b...)
+	select {
+	case s.inj <- c:
+		return len(b), nil
+	case <-s.done:
+		return 0, os.ErrClosed
+	case <-time.After(30 * time.Second):
+		panic(&infraError{"saturating writer did not take an injected line within 30s"})
+	}
+}
+
+func saturateInj(w *os.File, stop <-chan struct{}, wg *sync.WaitGroup, inj <-chan []byte, done chan<- struct{}) {
 	defer wg.Done()
+	if done != nil {
+		defer close(done)
+	}
 	var sb strings.Builder
 	for i := 0; sb.Len() < 60000; i++ {
 		fmt.Fprintf(&sb, "type=USER_ACCT msg=audit(1600000000.%03d:%d): pid=1 uid=0 auid=4294967295 ses=4294967295 msg='op=PAM:accounting grantors=pam_permit acct=\"root\" exe=\"/usr/sbin/cron\" hostname=? addr=? terminal=cron res=success'\n", i%1000, 100000+i)
@@ -234,6 +260,11 @@ func saturate(w *os.File, stop <-chan struct{}, wg *sync.WaitGroup) {
 		select {
 		case <-stop:
 			return
+		case b := <-inj:
+			if _, err := w.Write(b); err != nil {
+				return
+			}
+			continue
 		default:
 		}
 		if _, err := w.Write(block); err != nil {
